@@ -24,4 +24,7 @@ def run_all(repo, pids=None):
 
 
 if __name__ == '__main__':
+    if os.environ.get('PYTHONHASHSEED') != '0':
+        os.environ['PYTHONHASHSEED'] = '0'
+        os.execv(sys.executable, [sys.executable, '-B', '-m', 'sa.allprops'] + sys.argv[1:])
     print(json.dumps(run_all(sys.argv[1], sys.argv[2:] or None)))
